@@ -1206,7 +1206,7 @@ func litestream.(*VFSFile).pollReplicaClient(f, ctx) (err)
 // non-zero creation time.
 pred createdOK(cl int, lv int) = forall k int :: {replFile(cl, lv, k)} 0 <= k && k < replN(cl, lv) ==> fcreated(replFile(cl, lv, k)) > 0
 func litestream.(*Replica).TimeBounds(r, ctx) (createdAt, updatedAt, err)
-  requires r != nil && r.Client != nil
+  assumes r != nil && r.Client != nil     // A-replica-wired: a Replica in use has its client (a nil client panics at the first listing)
   assumes forall lv int :: {replN(r.Client, lv)} 0 <= lv && lv <= 9 ==> createdOK(r.Client, lv)     // A-created-nonzero
   modifies $alloc, it_idx
   ensures [C15.bounds] err == nil ==> (forall lv int, k int :: {replFile(old(r.Client), lv, k)} 0 <= lv && lv <= 9 && 0 <= k && k < replN(old(r.Client), lv) ==> createdAt <= fcreated(replFile(old(r.Client), lv, k)) && fcreated(replFile(old(r.Client), lv, k)) <= updatedAt && createdAt > 0)
